@@ -25,6 +25,8 @@ OBLIGATIONS = [
     (P + "ascii_sync_encOk", "EncOk for every validator synchronised at ASCII bytes (AsciiSync; UTF-8 validators are of this kind) whose pre-filter yields valid text"),
     (P + "uri_validator_scheme_whitelist", "model of uri_parser/uri_validator_functor (scheme expression an arbitrary predicate): an accepted text with a scheme has "
                                            "an allowed scheme and the validator is not the relative one; absolute_uri accepts only texts with a scheme"),
+    (P + "filter_validates_utf8", "clause 1 under encoding(\"UTF-8\") for the real validator/pre-filter as modelled and proved exact by C14 (utf8Enc): only RulesOk, HtmlCaseOk (HTML) and the replacement-char precondition ReplOk"),
+    (P + "validate_implies_utf8_wellformed", "clause 4 for UTF-8: accepted text is a concatenation of RFC 3629 encodings of HTML-safe code points (C14 WellFormed)"),
     (P + "uri_accepted_bytes_safe", "every byte of a text accepted by the URI validator model is printable ASCII other than \" < > \\ [ ] ^ ` { | } (no space/control/non-ASCII), every & starts &amp; or &apos;"),
     (P + "uri_browser_scheme_allowed", "the scheme a WHATWG URL parser sees in the reference-decoded accepted value (if any) is one the scheme expression matched; never for the relative validator"),
     (P + "htmlCaseOk_needed_counterexample", "the HtmlCaseOk hypothesis cannot be dropped for the abstract Rules type (concrete witness, by decide)"),
@@ -722,6 +724,7 @@ def main():
         "strtol on an all-digit string (modelled as exact natural number; saturation at LONG_MAX is indistinguishable: both > 0x10FFFF)",
         "std::map/std::set with the c_string comparators (modelled as last-assignment-wins lookup under byte equality / ASCII-case-insensitive equality)",
         "correspondence harness harness/c04.cpp (ASan+UBSan build of the working tree)",
+        "UTF-8 composition: Cppcms.C14 model and theorems (validate_iff_wellformed, filter_yields_valid) are imported by LemUtf8/Props; their tie to utf_iterator.h / encoding.cpp is C14's check (C14's Gen.lean as last regenerated by it)",
         "lenient tokenizer of Spec.lean = this project's reading of 'what a browser may treat as markup' (specification, trusted as such)",
     ]
     c.assumptions += ["encoding::valid / encoding::validate_or_filter (property C14) are parameters of the model: single-byte charsets as a per-byte test "
